@@ -23,6 +23,8 @@ RULE = ("(A) 12 element types x every shape of rank 1..4 over extents {0,1,2,3} 
         "compared with the model byte for byte (text as Python strings); non-trivial = history whose last "
         "operation changed the array; distinct by construction")
 ASSUMPTIONS = [
+    "a second file with the same block and array names (other content) stays open in the same process during every "
+    "create / history case and must read unchanged at the end (state kept outside the File objects)",
     "cells that were never written (after a resize or shape-only creation) are 'unknown' and not compared",
     "writes use the array's own element type (cross-type conversion is HDF5's business)",
     "text never contains NUL (HDF5 limit)",
@@ -236,10 +238,52 @@ def create(b, name, dt, shape, path, compression=Compression.Auto):
     return da, M(data)
 
 
+TWIN_N = 40
+
+
+class Twin:
+    """A second file that stays open in the same process, with the same block and array names as the
+    file under test but other content (float32 [-7, -8, -9]).  State the library keeps outside its
+    File objects (anything keyed by names or HDF5 paths) then shows up either as a wrong read in the
+    file under test or as a change of the twin."""
+
+    def __init__(self, prefix):
+        self.path = env.fresh_path("c01twin_")
+        self.f = nix.File.open(self.path, nix.FileMode.Overwrite)
+        b = self.f.create_block("b", "t")
+        self.ref = np.array([-7, -8, -9], dtype=np.float32)
+        self.names = ["%s%d" % (prefix, k) for k in range(1, TWIN_N + 1)]
+        for nm in self.names:
+            b.create_data_array(nm, "t", data=self.ref)
+        self.check(None)          # read everything once
+
+    def check(self, r):
+        b = self.f.blocks["b"]
+        for nm in self.names:
+            da = b.data_arrays[nm]
+            got = da[:]
+            ok = got.dtype == self.ref.dtype and got.shape == self.ref.shape and got.tobytes() == self.ref.tobytes() \
+                and tuple(da.shape) == (3,)
+            if r is not None:
+                r.transitions += 1
+            if not ok:
+                if r is not None:
+                    r.viol("C01|second-open-file|array-of-the-same-name-changed",
+                           "array %s of ANOTHER file open in the same process (same block and array names) now reads "
+                           "%r (%s), it was written once as %r" % (nm, got, got.dtype, self.ref), {"array": nm})
+                return False
+        return True
+
+    def close(self):
+        env.safe_close(self.f)
+        env.rm(self.path)
+
+
 class Sess:
-    def __init__(self, **kw):
+    def __init__(self, twin=None, **kw):
         env.install_seams()
         env.reset_execution()
+        self.twin = Twin(twin) if twin else None
         self.path = env.fresh_path("c01_")
         self.f = nix.File.open(self.path, nix.FileMode.Overwrite, **kw)
         self.b = self.f.create_block("b", "t")
@@ -249,7 +293,13 @@ class Sess:
         self.f = nix.File.open(self.path, nix.FileMode.ReadOnly if mode == "ro" else nix.FileMode.ReadWrite)
         self.b = self.f.blocks["b"]
 
-    def close(self):
+    def close(self, r=None):
+        if self.twin is not None:
+            try:
+                if r is not None:
+                    self.twin.check(r)
+            finally:
+                self.twin.close()
         env.safe_close(self.f)
         env.rm(self.path)
 
@@ -257,7 +307,7 @@ class Sess:
 def run_create(case, r):
     dt, rank = case["dtype"], case["rank"]
     ext = (0, 1, 2, 3) if rank < 4 else (0, 1, 2)
-    s = Sess()
+    s = Sess(twin="a")
     try:
         made = []
         k = 0
@@ -285,7 +335,7 @@ def run_create(case, r):
                 r.evals += 1
                 verify(r, s.b.data_arrays[name], model, dt, opk, "after-reopen-" + mode)
     finally:
-        s.close()
+        s.close(r)
 
 
 # ---------------------------------------------------------------- histories
@@ -402,7 +452,7 @@ def opkind(op):
 
 def run_hist(case, r):
     dt, shape, depth = case["dtype"], tuple(case["shape"]), case["depth"]
-    s = Sess()
+    s = Sess(twin="h")
     try:
         hists = gen_hist(shape, depth)
         pending = []
@@ -459,7 +509,7 @@ def run_hist(case, r):
                         verify(r, s.b.data_arrays[nm], mdl, dt, opk, "after-reopen-" + mode)
                 pending = []
     finally:
-        s.close()
+        s.close(r)
 
 
 # ---------------------------------------------------------------- compression
